@@ -27,7 +27,7 @@ fn pick(names: &'static [&'static str]) -> BoxedStrategy<String> {
 }
 
 pub const CLASS_NAMES: &[&str] = &["a", "b", "c", "foo", "foo-bar", "x1", "_u", "-v", "p--x", "B", "组件", "a\\b", "1a", "--x", "é"];
-pub const PLAIN_CLASS_NAMES: &[&str] = &["a", "b", "c", "foo", "foo-bar", "x1", "_u", "B"];
+pub const PLAIN_CLASS_NAMES: &[&str] = &["a", "b", "c", "foo", "foo-bar", "x1", "_u", "B", "组件", "é"];
 pub const TYPES: &[&str] = &["div", "view", "a", "li", "*", "x-y"];
 pub const IDS: &[&str] = &["i", "id1", "a-b", "fff"];
 pub const ATTR_NAMES: &[&str] = &["href", "data-x", "wx-host", "a"];
